@@ -156,6 +156,12 @@ def bgInitial : BgLayer :=
 inductive BgSlot where | image | position | rep | attachment | box1 | box2 | color
   deriving DecidableEq, Repr
 
+/-- normal form of a `<bg-size>` component: a zero percentage and a zero length are the same size -/
+def sizeNorm (t : Tok) : Tok :=
+  match numOf t with
+  | some (.percentage q) => if q == 0 then zeroTok else compNorm t
+  | _ => compNorm t
+
 /-- the `<bg-size>` behind a slash: (size, rest) -/
 def takeSize (ts : List Tok) : Option ((Tok × Tok) × List Tok) :=
   match ts with
@@ -163,8 +169,8 @@ def takeSize (ts : List Tok) : Option ((Tok × Tok) × List Tok) :=
     if isKw a "cover" || isKw a "contain" then some ((compNorm a, compNorm a), r)
     else if isSizeTok a then
       match r with
-      | b :: r' => if isSizeTok b then some ((compNorm a, compNorm b), r') else some ((compNorm a, autoTok), r)
-      | [] => some ((compNorm a, autoTok), [])
+      | b :: r' => if isSizeTok b then some ((sizeNorm a, sizeNorm b), r') else some ((sizeNorm a, autoTok), r)
+      | [] => some ((sizeNorm a, autoTok), [])
     else none
   | [] => none
 
